@@ -64,7 +64,13 @@ impl AbtExec {
                 }
                 let prev = set_backend(None); // a plain call: nothing is replayed
                 let obj: &AtomicBaseTime = &self.seq.obj;
-                let res = catch_unwind(AssertUnwindSafe(|| match call {
+                // under the process watchdog: run alone like this, every call finishes in a handful
+                // of steps (C18); real code that spins or blocks here would otherwise hang the run
+                let on_expiry = vec![format!(
+                    "C18 sequential calls: `{}` did not return within the watchdog budget although no other thread is running",
+                    fmt_call(call)
+                )];
+                let res = crate::iterscript::watched(on_expiry, || catch_unwind(AssertUnwindSafe(|| match call {
                     Call::Snapshot => {
                         let (b, v) = obj.snapshot();
                         Ret::Snap(b, unsafe { std::mem::transmute::<raffle::Voucher, u64>(v) })
@@ -75,7 +81,7 @@ impl AbtExec {
                     }
                     Call::TryUpdate(b, v) => Ret::Bool(obj.try_update((b, voucher_of_bits(v)))),
                     _ => unreachable!(),
-                }));
+                })));
                 set_backend(prev);
                 let mut so = StepOut::default();
                 so.tags.push(format!("seq_{}", rest[0]));
